@@ -178,6 +178,19 @@ static void rec(int n, int depth) {
     UNREG(base + 7);   /* the block of this iteration stays allocated, but is reused as scratch by nothing: keep it out of the overlap set */
   }
   CHECKPAT(-1);
+  /* pointer arithmetic on pointers to variable length arrays: every form moves by whole rows (sizeof *pm bytes) */
+  {
+    long (*pm)[n % 7 + 1] = m, (*pe)[n % 7 + 1] = m + 2, (*pt)[n % 7 + 1];
+    long row = sizeof *pm;
+    OUTV(6, ((char *)(pm + 2) - (char *)m) / row); OUTV(6, ((char *)(pe - 1) - (char *)m) / row); OUTV(6, ((char *)(pe - 2) - (char *)m) / row);
+    pt = pe; pt -= 1; OUTV(6, ((char *)pt - (char *)m) / row); pt -= 1; OUTV(6, ((char *)pt - (char *)m) / row);
+    pt = pm; pt += 2; OUTV(6, ((char *)pt - (char *)m) / row); pt--; OUTV(6, ((char *)pt - (char *)m) / row); ++pt; OUTV(6, ((char *)pt - (char *)m) / row);
+    OUTV(6, pe - pm); OUTV(6, &pm[2] - pm); OUTV(6, (char *)&pe[-1] - (char *)m == row); OUTV(6, (char *)(1 + pm) - (char *)m == row);
+    int kk = 2; OUTV(6, ((char *)(pe - kk) - (char *)m)); OUTV(6, ((char *)(pm + kk) - (char *)m) == 2 * row);
+    OUTV(6, &(*(pe - 1))[0] == &m[1][0]); OUTV(6, &(pe - 2)[1][n % 7] == &m[1][n % 7]);
+    short (*pc)[n % 3 + 2] = c + 1; OUTV(6, (char *)(pc - 1) - (char *)c); OUTV(6, (char *)(pc + 0) - (char *)c == (long)sizeof c[0]);
+  }
+  CHECKPAT(-1);
   for (int i = 0; i < 6; i++) UNREG(base + i);
 }
 int main(void) {
